@@ -90,6 +90,12 @@ class C09(MsgProp):
                 yield ("ENC " + g.message(r, n, "wild"), "wild", True)
         for w in ("E", "C", "U0", "U1150", "U4095", "U65535"):
             yield ("ENC " + w, "no-wire-form", True)
+        # frames from a reused builder are well formed too: large payloads followed by small ones and back
+        bigs = [g.message(r, n, "valid", lens=10 ** 6) for n in (1057, 1059, 1004, 1012, 1077, 1127, 1029) if n in g.numbers]
+        smalls = [g.message(r, n, "valid", lens=1) for n in (1005, 1006, 1001, 1007, 1230, 1013) if n in g.numbers]
+        for i in range(12 if ctx.tier == "quick" else 120):
+            seq = [r.choice(bigs), r.choice(smalls), r.choice(bigs + smalls), r.choice(smalls)]
+            yield ("BUILDSEQ " + " ; ".join(seq), "reused-builder", True)
         # payload sizes around the 255/256-byte boundary (1029: 9 header bytes + text) and byte-aligned bodies
         for t in list(range(240, 256)) + [0, 1, 7]:
             txt = ("é" * (t // 2) + "a" * (t % 2)).encode()     # <= 127 characters, t bytes
@@ -530,7 +536,8 @@ class C16(MsgProp):
             for (ns, nb) in [(13, 31), (63, 31), (63, 6), (1, 31), (12, 31), (32, 12), (31, 31)]:
                 yield ("DEC " + hx(mk_frame(bias_payload(r, n, ns, nb))), "hostile-counts", True)
 
-    def entries(self, n, toks):
+    def entries(self, n, toks, with_bias=False):
+        import struct
         c = [k for k, t in enumerate(toks) if t.startswith("c")][0]
         cnt = int(toks[c][1:])
         rest = toks[c + 1:]
@@ -538,7 +545,12 @@ class C16(MsgProp):
         out = []
         for i in range(cnt):
             e = rest[i * step:(i + 1) * step]
-            out.append((int(e[0][1:]), e[1]) if n != 1230 else (0, e[0]))
+            key = (int(e[0][1:]), e[1]) if n != 1230 else (0, e[0])
+            if with_bias:
+                b = struct.unpack("<f", struct.pack("<I", int(e[-1][1:], 16)))[0]
+                out.append((key, b))
+            else:
+                out.append(key)
         return out
 
     def run(self, ctx):
@@ -570,6 +582,16 @@ class C16(MsgProp):
                     fails += 1; self.fail(ctx, op, prof, "decoded entries not grouped by ascending satellite")
                 if len(eout) > caps[n]:
                     fails += 1; self.fail(ctx, op, prof, "more entries than capacity")
+                # the bias of every entry comes back on its grid (distinct keys: match by key)
+                bin_ = dict(self.entries(n, op.split()[2:], True))
+                bout = dict(self.entries(n, a.split()[2:], True))
+                step, lim = (0.02, 655.0) if n == 1230 else (0.01, 81.9)
+                if len(bin_) == len(ein):
+                    for key, b in bin_.items():
+                        if key in bout and b == b and abs(b) < lim and abs(bout[key] - b) > step / 2 + 1e-3 * step + abs(b) * 1e-6:
+                            fails += 1
+                            self.fail(ctx, op, prof, f"bias of entry {key} is {b} and comes back as {bout[key]}")
+                            break
         ctx.cov["oracle_failures"] += fails
         return extra
 
